@@ -137,6 +137,59 @@ func readerCase(b []byte) string {
 	})
 }
 
+type feeder struct {
+	hdr  []byte
+	left int
+	fed  int
+}
+
+func (f *feeder) Read(p []byte) (int, error) {
+	if len(f.hdr) > 0 {
+		n := copy(p, f.hdr)
+		f.hdr = f.hdr[n:]
+		f.fed += n
+		return n, nil
+	}
+	if f.left == 0 {
+		return 0, io.EOF
+	}
+	n := min(len(p), f.left, 4096)
+	for i := 0; i < n; i++ {
+		p[i] = 0
+	}
+	f.left -= n
+	f.fed += n
+	return n, nil
+}
+
+// hostileLengthCase: a frame announcing `declared` bytes whose payload keeps coming: the reader
+// must give up within a small multiple of its maximum instead of buffering what the peer sends.
+func hostileLengthCase(max int, declared uint64, chunkHdr bool) string {
+	hdr := []byte{0x05, 0x01, 0x01}
+	for v := declared; ; v >>= 7 {
+		if v < 0x80 {
+			hdr = append(hdr, byte(v))
+			break
+		}
+		hdr = append(hdr, byte(v)|0x80)
+	}
+	f := &feeder{hdr: hdr, left: 64 << 20}
+	var err error
+	if m := guard("Reader.ReadPacket", func() {
+		rd := drpcwire.NewReaderWithOptions(f, drpcwire.ReaderOptions{MaximumBufferSize: max})
+		_, err = rd.ReadPacket()
+	}); m != "" {
+		return m
+	}
+	if limit := 4*max + 64<<10; f.fed > limit {
+		return fmt.Sprintf("reader with MaximumBufferSize=%d consumed (and buffered) %d bytes of a frame announcing %d bytes before giving up (err=%v)", max, f.fed, declared, err)
+	}
+	if err == nil {
+		return "reader returned a packet for an incomplete frame"
+	}
+	return ""
+}
+
 func decodeCase(b []byte) string {
 	return guard("drpcmetadata.Decode", func() { _, _ = drpcmetadata.Decode(b) })
 }
@@ -328,6 +381,25 @@ func families(tier string) []seq.Family {
 			var v struct{ Headers []string }
 			_ = json.Unmarshal(in, &v)
 			return headerCase(v.Headers)
+		}},
+		{Name: "hostile-frame-lengths", Run: func(ctx *seq.Ctx) {
+			for _, max := range []int{1, 1000, 65536, 4 << 20} {
+				for _, declared := range []uint64{uint64(max) + 1, uint64(max) + 100, 1 << 32, 1 << 40, 1<<63 - 1, 1<<64 - 1} {
+					ctx.Count(1, 1, 0)
+					if m := hostileLengthCase(max, declared, false); m != "" {
+						ctx.Fail(m, map[string]any{"max": max, "declared": declared})
+					}
+				}
+			}
+			ctx.Class("rejected")
+			ctx.Sample(map[string]any{"max": 1000, "declared": "2^40"})
+		}, Replay: func(in json.RawMessage) string {
+			var v struct {
+				Max      int
+				Declared uint64
+			}
+			_ = json.Unmarshal(in, &v)
+			return hostileLengthCase(v.Max, v.Declared, false)
 		}},
 		{Name: "error-chains<=4", Run: func(ctx *seq.Ctx) {
 			depth := 3
